@@ -25,6 +25,7 @@ inductive PyVal where
   | npfloat (repr : String)
   | npbool (b : Bool)
   | ndarray (tolist : PyVal)          -- a numpy array, carried as the value of `.tolist()`
+  | arraylike (tolist : PyVal)        -- any other object with `__array__` (e.g. an ASE Cell), carried as `np.asarray(obj).tolist()`
   | tuple (xs : List PyVal)
   | list (xs : List PyVal)
   | dict (kvs : List (PKey × PyVal))
@@ -62,6 +63,7 @@ def encode : PyVal → PyVal
   | .npfloat r => .float r
   | .npbool b => .bool b
   | .ndarray t => t                       -- `obj.tolist()`, not re-encoded
+  | .arraylike t => t                     -- `np.asarray(obj).tolist()`
   | .none => .none
   | .bool b => .bool b
   | .int n => .int n
@@ -100,6 +102,7 @@ def store : PyVal → Except Err PyVal
   | .npfloat _ => .error .type_error
   | .npbool _ => .error .type_error
   | .ndarray _ => .error .type_error
+  | .arraylike _ => .error .type_error
 def storeL : List PyVal → Except Err (List PyVal)
   | [] => .ok []
   | x :: xs => match store x, storeL xs with
@@ -174,6 +177,7 @@ def norm : PyVal → PyVal
   | .npfloat r => .float r
   | .npbool b => .bool b
   | .ndarray t => t
+  | .arraylike t => t
   | .tuple xs => .tuple (normL xs)
   | .list xs => .list (normL xs)
   | .dict kvs => .dict (normKV kvs)
@@ -210,6 +214,7 @@ mutual
 /-- well formed: array payloads are `tolist()` images; no dict claims `"_type": "tuple"`; dict keys are strings -/
 def Good : PyVal → Bool
   | .ndarray t => Plain t
+  | .arraylike t => Plain t
   | .tuple xs => GoodL xs
   | .list xs => GoodL xs
   | .dict kvs => GoodKV kvs
